@@ -80,7 +80,7 @@ def enumerate_cases(tier, sd):
     return pool, cases, schema, total
 
 
-def replay_cases(pool, cases, schema, mode="direct"):
+def replay_cases(pool, cases, schema, mode="direct", monitors=False):
     """Shards the cases, replays them on the real engine, validates each shard."""
     nsh = min(NCPU, max(1, len(cases) // 100))
     shards = [cases[i::nsh] for i in range(nsh)]
@@ -93,7 +93,8 @@ def replay_cases(pool, cases, schema, mode="direct"):
                 for c in sh:
                     f.write(json.dumps(c) + "\n")
             rc, o, e = run([_vh, "replay-cases", "-schema-file", sc.path("schema.abs.json"), "-pool", sc.path("pool.json"),
-                            "-cases", sc.path("cases.ndjson"), "-o", sc.path("trace.ndjson"), "-mode", mode], timeout=1800)
+                            "-cases", sc.path("cases.ndjson"), "-o", sc.path("trace.ndjson"), "-mode", mode]
+                           + (["-monitors"] if monitors else []), timeout=1800)
             if rc != 0:
                 raise Broken("vh replay-cases failed: " + e[-3000:])
             res = txnfam.validate_trace(sc.dir, timeout=3000)
@@ -113,6 +114,14 @@ def jobs_for(prop, tier, sd):
     server = prop in ("C07", "C02")
     n = 250 if tier == "quick" else 1500
     reps = 1 if tier == "quick" else 3
+    if prop == "C07":
+        for r in range(reps):
+            s = sd * 1000 + r
+            jobs.append(dict(schema="small", schema_seed=1, seed=s + 50, mode="server", n=n, profile=prop))
+            jobs.append(dict(schema="kitchen", schema_seed=1, seed=s + 51, mode="server", n=n, profile=prop))
+            for k in range(4 if tier == "quick" else 10):
+                jobs.append(dict(schema="random", schema_seed=s * 17 + k, seed=s + 52 + k, mode="server", n=n // 2, profile=prop))
+        return jobs
     for r in range(reps):
         s = sd * 1000 + r
         jobs.append(dict(schema="small", schema_seed=1, seed=s, mode="direct", n=n, profile=prop, reload=0.1 if prop == "C04" else 0.0))
@@ -136,11 +145,14 @@ def run_check(prop, tier):
     cov.update(model_check(tier, prop))
 
     results = []
-    if prop != "C07":
-        pool, cases, schema, total = enumerate_cases(tier, sd)
+    pool, cases, schema, total = enumerate_cases(tier, sd)
+    if prop in ("C07", "C02"):
+        # through the real server, with a v1 and a v2 monitor attached
+        results += replay_cases(pool, cases, schema, mode="server", monitors=True)
+    else:
         results += replay_cases(pool, cases, schema)
-        cov["enumerated_transitions"] = total
-        cov["replayed_transitions"] = len(cases)
+    cov["enumerated_transitions"] = total
+    cov["replayed_transitions"] = len(cases)
     jobs = jobs_for(prop, tier, sd)
     results += pmap(lambda j: txnfam.record_and_validate(_vh, j), jobs)
 
